@@ -24,6 +24,9 @@ POLICY_CYCLE = [
     {"policy": "all"},
     {"policy": "pct", "d": 4, "pre_yields": 1},
     {"policy": "fifo"},
+    {"policy": "fifo", "atomic": True},            # every reply synchronous: the test suite's own schedule
+    {"policy": "random", "atomic_frac": 0.5},      # some simulators synchronous, the others in flight
+    {"policy": "starve", "atomic_frac": 0.4},
 ]
 
 
